@@ -77,3 +77,12 @@ package sherpa
 //@   safety
 //@   requires rb != nil
 //@   ensures len(res) == len(rb.data)
+
+// C18: the per-read stall timer of the sherpa engine is the configured read timeout (default when unset), whatever
+// kind of response is being relayed
+//@ func (s *Service) getReadTimeout
+//@   property C18
+//@   safety
+//@   requires s != nil && s.configuration != nil
+//@   ensures s.configuration.BaseProxyConfig.ReadTimeout != 0 ==> res == s.configuration.BaseProxyConfig.ReadTimeout
+//@   ensures s.configuration.BaseProxyConfig.ReadTimeout == 0 ==> res == 60000000000
